@@ -177,7 +177,7 @@ def run(ck):
     cases = []      # (world, start labels, data, tval, [ops])
     # --- (a) single steps
     all_states = list(itertools.product(PSTATES, LSTATES, MSTATES, TSTATES))
-    nstates = len(all_states) if False else (60 if thorough else 8)
+    nstates = len(all_states) if False else (ck.n(8, 60))
     for st in rng.sample(all_states, nstates):
         lab = [st[0][0], st[0][1], st[1][0], st[1][1], st[2][0], st[2][1], st[3]]
         w = rng.choice(worlds)
@@ -187,7 +187,7 @@ def run(ck):
             cases.append((w, lab, ps, ls, w.temp if lab[6] == "K" else w.temp - 273.15, [op]))
     n_single = len(cases)
     # --- (b) histories
-    nh = 400 if thorough else 60
+    nh = ck.n(60, 400)
     for i in range(nh):
         st = rng.choice(all_states)
         lab = [st[0][0], st[0][1], st[1][0], st[1][1], st[2][0], st[2][1], st[3]]
@@ -197,7 +197,7 @@ def run(ck):
         ls = [rng.uniform(0.0, 5.0) for _ in range(n)]
         malformed = rng.random() < 0.3
         ops, cur = [], list(lab)
-        for _ in range(rng.randint(1, 25 if thorough else 12)):
+        for _ in range(rng.randint(1, ck.n(12, 25))):
             ops.append(gen_op(rng, cur, malformed))
         # back to the start at the end of some histories
         if rng.random() < 0.4:
